@@ -373,10 +373,25 @@ def check_sweep(case, ctx):
     rational = case['rational']
     pdim = case['pdim']
     ctx.nontriv(True)
-    sd = G.rand_shape(rng, pdim, rational=rational, dim=3, clamped_only=True, maxextra=3, maxdeg=3)
+    dim_ = 3 if pdim == 2 or rng.random() < 0.6 else 2
+    sd = G.rand_shape(rng, pdim, rational=rational, dim=dim_, clamped_only=True, maxextra=3, maxdeg=3)
     o = G.build(sd)
     S = G.defn_of(o)
-    vec = [rng.uniform(-5, 5) for _ in range(3)]
+    vec = [rng.uniform(-5, 5) for _ in range(dim_)]
+    if rng.random() < 0.25:
+        # a vector of another dimension than the shape (e.g. a planar profile extruded along z): either refused, or the far section is the
+        # input moved by the WHOLE vector - not a silently truncated one
+        from geomdl.exceptions import GeomdlException
+        wrong = vec + [rng.uniform(1, 5)] if rng.random() < 0.6 or dim_ == 2 else vec[:-1]
+        ctx.tag('sweep:vector-of-other-dimension')
+        try:
+            r_ = sweeping.sweep_vector(o, wrong)
+        except (GeomdlException, ValueError, TypeError):
+            ctx.ok('sweep')
+        else:
+            ok_ = r_.dimension == max(len(wrong), dim_)
+            ctx.check(ok_, 'sweep/vector-truncated', 'sweep_vector(%d-D shape, %d-component vector) returned a %d-D shape: the vector was silently '
+                      'cut down to the dimension of the shape (or the shape to that of the vector)' % (dim_, len(wrong), r_.dimension), what='sweep')
     ctx.tag('sweep:curve' if pdim == 1 else 'sweep:surface', 'rational' if rational else 'nonrational')
     r = sweeping.sweep_vector(o, vec)
     if not ctx.check(r.pdimension == pdim + 1, 'sweep/pdimension', 'sweep_vector returned pdimension %d' % r.pdimension, what='sweep'):
